@@ -177,10 +177,12 @@ Fixpoint dispatch_z (inflate : N -> bytes -> option bytes) (tbl : list (N * row)
   | x => x
   end.
 
-(* what lib.Decompress* allocates for a frame before a single byte is inflated
-   (Buffer.Allocate doubles the capacity from 4096 until it fits: up to twice the declared size) *)
+(* what lib.DecompressLZW allocates for a frame before a single byte is inflated
+   (Buffer.Allocate doubles the capacity from 4096 until it fits: up to twice the declared size).
+   DecompressZLIB / DecompressGZIP do the same once zlib.NewReader / gzip.NewReader accepted the
+   2 / 10 byte stream header (not modelled: counted as 0 here). *)
 Definition z_alloc (f : bytes) : N :=
-  match dispatch rows f with DInflate _ d => d | _ => 0 end.
+  match dispatch rows f with DInflate ct d => if ct =? 100 then d else 0 | _ => 0 end.
 
 (* ---- a whole stream ---------------------------------------------------------------------------------- *)
 Inductive fin := FWait | FClosed | FCrash (i : N).
